@@ -533,6 +533,9 @@ func TestDecoderForms(t *testing.T) {
 type PublicCase struct {
 	Values []ops.F32 `json:"values"`
 	HiRes  bool      `json:"hires"`
+	// FlipMid: the exported resolution field is flipped while the path is open (after the line
+	// segments, before the H-lines and arcs); the path keeps the resolution it was started with.
+	FlipMid bool `json:"flip_mid,omitempty"`
 }
 
 func lowResOK(f, g float32) bool {
@@ -568,6 +571,9 @@ func checkPublic(c PublicCase) error {
 	enc.StartPath(0, 0, 0)
 	for _, v := range vals {
 		enc.AbsLineTo(v, -v)
+	}
+	if c.FlipMid {
+		enc.HighResolutionCoordinates = !c.HiRes
 	}
 	for _, v := range vals {
 		enc.RelHLineTo(v)
@@ -778,7 +784,7 @@ var subPublic = harness.Define("public-paths", "batches of values through SetLOD
 func TestPublicPaths(t *testing.T) {
 	harness.Rapid(t, harness.N(4000, 16*32000), func(t *rapid.T) {
 		n := rapid.IntRange(1, 40).Draw(t, "n")
-		c := PublicCase{HiRes: rapid.Bool().Draw(t, "hires")}
+		c := PublicCase{HiRes: rapid.Bool().Draw(t, "hires"), FlipMid: rapid.IntRange(0, 2).Draw(t, "flipmid") == 0}
 		nt := false
 		for i := 0; i < n; i++ {
 			v := gen.Float32Any(t, "v")
@@ -789,12 +795,16 @@ func TestPublicPaths(t *testing.T) {
 		if c.HiRes {
 			l = "high-resolution"
 		}
-		subPublic.See(c, nt, harness.HashJSON(c), l)
+		labels := []string{l}
+		if c.FlipMid {
+			labels = append(labels, "resolution-field-flipped-while-the-path-is-open")
+		}
+		subPublic.See(c, nt, harness.HashJSON(c), labels...)
 		subPublic.Run(t, c)
 	})
-	// the boundary table, in both modes
-	for _, hi := range []bool{false, true} {
-		c := PublicCase{HiRes: hi}
+	// the boundary table, in both modes, with and without a flip of the field mid-path
+	for _, m := range [][2]bool{{false, false}, {true, false}, {false, true}, {true, true}} {
+		c := PublicCase{HiRes: m[0], FlipMid: m[1]}
 		for _, v := range append(append([]float32{}, gen.Boundary...), gen.NonFinite...) {
 			c.Values = append(c.Values, ops.F32(v), ops.F32(-v))
 		}
